@@ -56,7 +56,12 @@ func body(w *hx.W) {
 			continue
 		}
 		cfg := memsim.Cfg{Seed: seed, Sessions: 1 + i%4, Boxes: 2 + i%2, Steps: 60, Rev2: i%2 == 0, NoopBias: []int{30, 80, 200}[i%3], Profile: "view", InitMsgs: 4 + i%9, WithJunk: false, WithAdmin: i%7 == 0}
-		done := w.Begin(fmt.Sprintf("history-%d", seed), fmt.Sprintf("history seed=%d sessions=%d rev2=%v", seed, cfg.Sessions, cfg.Rev2), 120*time.Second)
+		if i%10 == 9 {
+			// a session that falls hundreds of updates behind and then issues NOOP
+			cfg.Sleeper, cfg.Steps, cfg.Sessions, cfg.Boxes, cfg.NoopBias = true, 320, 2+i%3, 2, 60
+			w.Metric("histories_with_a_sleeping_session", 1)
+		}
+		done := w.Begin(fmt.Sprintf("history-%d", seed), fmt.Sprintf("history seed=%d sessions=%d rev2=%v sleeper=%v steps=%d", seed, cfg.Sessions, cfg.Rev2, cfg.Sleeper, cfg.Steps), 300*time.Second)
 		memsim.Run(cfg, r)
 		done()
 		w.Case(uint64(seed))
